@@ -28,7 +28,8 @@ ASSUMPTIONS = [
 ]
 
 
-def scenario() -> Any:
+def scenario(big: bool = False) -> Any:
+    """big=True (thorough tier): wider configuration and longer message sequences."""
     def fin(d: Dict[str, Any]) -> Dict[str, Any]:
         d["msgs"] = cm.sort_msgs(d["msgs"])
         if not d.pop("has_stop"):
@@ -42,10 +43,10 @@ def scenario() -> Any:
         return d
 
     return st.fixed_dictionaries({
-        "A": st.sampled_from([1, 1, 2, 3, 4, None]),
-        "P": st.integers(0, 4),
-        "N": st.sampled_from([None, None, 1, 2, 3, 4, 5]),
-        "msgs": st.lists(cm.message(kinds=("async", "async", "async", "sync", "bad", "unknown", "shared", "late", "dyn", "dyn", "plaincls")), min_size=1, max_size=9),
+        "A": st.sampled_from([1, 1, 2, 3, 4, None] + ([5, 6, 8] if big else [])),
+        "P": st.integers(0, 7 if big else 4),
+        "N": st.sampled_from([None, None, 1, 2, 3, 4, 5] + ([6, 8, 11] if big else [])),
+        "msgs": st.lists(cm.message(kinds=("async", "async", "async", "sync", "bad", "unknown", "shared", "late", "dyn", "dyn", "plaincls")), min_size=1, max_size=16 if big else 9),
         "stop": cm.times(),
         "has_stop": st.booleans(),
         "ends": st.booleans(),
@@ -57,7 +58,7 @@ def scenario() -> Any:
 
 def parts(tier: str) -> List[Part]:
     if tier == "thorough":
-        return [Part("scenarios", "given", shards=16, examples=6000, strategy=scenario, soft_deadline_s=1500)]
+        return [Part("scenarios", "given", shards=16, examples=15000, strategy=lambda: scenario(True), soft_deadline_s=3000)]
     return [Part("scenarios", "given", shards=8, examples=350, strategy=scenario, soft_deadline_s=120)]
 
 
